@@ -375,7 +375,7 @@ RULES.append(("C04.n", "await inventory: only futures whose completion rule is c
 
 def rule_mustpass(ctx):
     from . import mustpass
-    mustpass.check(ctx, ['process-event-runs', 'process-query-runs', 'process-runs', 'process-spawns', 'init-runs', 'step-until-steps', 'recv-runs-handler', 'recv-notifies-sender', 'st-spawn-enqueues', 'mt-spawn-enqueues', 'mt-run-returns-only-idle', 'exec-run-dispatches', 'st-run-runs-inner', 'output-broadcast-polls', 'source-broadcast-polls', 'senders-await-channel-send'])
+    mustpass.check(ctx, ['process-event-runs', 'process-query-runs', 'process-runs', 'process-spawns', 'init-runs', 'step-until-steps', 'recv-runs-handler', 'recv-notifies-sender', 'st-spawn-enqueues', 'mt-spawn-enqueues', 'mt-run-returns-only-idle', 'exec-run-dispatches', 'st-run-runs-inner', 'output-broadcast-polls', 'source-broadcast-polls', 'senders-await-channel-send', 'model-task-receives'])
 
 
 RULES.append(("C04.o", "must-pass-through: no path around the effects this property rests on (added fast paths / early returns)", rule_mustpass))
